@@ -51,6 +51,9 @@ CLAIMED['C08'] = ('ir2c+irsym', 'CBMC on the clang IR translated to C (IEEE floa
 CLAIMED['C07'] = ('ir2c', 'CBMC (z3 / kissat) equivalence checking of the two textual copies of each checked/unchecked pair in the clang IR translated to C, FP arithmetic abstracted identically on both sides as uninterpreted functions',
     'For every input bit pattern: the normalize family (Vec2/3/4), Vec3(Vec4[,InfException]), inverse()/inverse(bool)/invert for Matrix22/33 (44 and Gauss-Jordan pairs in the thorough tier), in-place vs value-returning inversion, and six Frustum ...Exc methods: whenever the checked form returns its output equals the unchecked form bit for bit, singExc=false never throws, the thrown type is the documented one, and inverse(true) throws only where the unchecked form returns the identity.',
     'Trusted: clang-14, vf/ll2c.py (validated each run), CBMC, z3/kissat. Abstraction: + - * / sqrt are uninterpreted (commutative where IEEE is) on BOTH sides, comparisons/abs/guards are exact - decides "same operations under the same guards", not rounding. Guard tightness (factor four of max) and decomposition exc flags are outside.', '3/C07')
+CLAIMED['C11'] = ('irsym+ir2c', 'engine C (exact reals, sin/cos pairs, mechanically instantiated parity/double-angle axioms, z3) per Euler order; CBMC for the order and slot-permutation bookkeeping',
+    'For each of the 24 orders and ALL angle triples: toMatrix33 and toMatrix44 are orthonormal with determinant +1 and hold the same rotation, toQuat() represents that rotation (via toMatrix33 of the quaternion), XYZ equals Matrix44::setEulerAngles == Rx Ry Rz; order()/setOrder round trip for the 24 enumerators and setXYZVector/toXYZVector/XYZ-layout constructor are mutually inverse permutations for every bit pattern.',
+    ENGC_NOTE + ' extract()/re-ordering round trips, angleMod/makeNear/nearestRotation are not decided.', '3/C11')
 NOT_YET = 'check not built yet in this working session (planned in DESIGN.md section 3); no claim is made'
 NA = {}
 
@@ -81,7 +84,7 @@ def main():
         'engines': [
             {'name': 'cbmc-c', 'path': 'harness/c01/half_c.c + vf/cbmc.py', 'serves_properties': ['C01', 'C02'], 'kind_free_text': 'CBMC on half.h compiled as C'},
             {'name': 'ir2c', 'path': 'vf/ll2c.py + vf/build.py + vf/cbmc.py', 'serves_properties': sorted(CLAIMED), 'kind_free_text': 'clang++-14 -O1 LLVM IR of wrapper TUs (real headers / real .cpp) -> own IR->C translator -> CBMC (minisat/cadical/kissat/z3/cvc5)'},
-            {'name': 'irsym', 'path': 'vf/irsym.py + vf/symcase.py', 'serves_properties': ['C05', 'C06', 'C09', 'C13', 'C14', 'C15', 'C16'], 'kind_free_text': 'own symbolic executor over the same LLVM IR, floats as exact reals, z3 nlsat'},
+            {'name': 'irsym', 'path': 'vf/irsym.py + vf/symcase.py', 'serves_properties': ['C05', 'C06', 'C09', 'C11', 'C13', 'C14', 'C15', 'C16'], 'kind_free_text': 'own symbolic executor over the same LLVM IR, floats as exact reals, z3 nlsat'},
         ],
         'checks': checks,
         'not_applicable': na,
